@@ -7,7 +7,7 @@ Only parts of this property are within reach of a theorem; they are:
 
 (a) **termination of the resolve loops** on a model of their data (`Model/Worklist.lean`): when the
     loops of `resolveOverLinks`, `traceOutline`/`findBottom` and the clone worklist end, when they
-    cannot end (defects D5, D6, D64), and that the repaired loops always end;
+    cannot end (defects D5, D6, D64 as found), and that the repaired loops (fixes D05, D06, D64) always end;
 (b) **error-message table** (`Generated/ErrSites.lean`, re-extracted from the working tree by
     `harness/translate/errsites.py` on every run): every `"…" % args` / `"…".format(args)` in the builder-side
     modules is given as many values as its text consumes, and no function of those modules loads a
@@ -121,6 +121,27 @@ theorem C14_clone_worklist_counterexample : ¬ C14_clone_worklist_full := by
   rw [this] at hn; cases hn
 
 example : run (mootsOf [[1, 2], [2], []]) 10 [0] = some 4 := by decide
+
+/-- **the repaired clone worklist** (a lineage per clone; fixes/D05-moot-clone-loop.patch) empties or raises
+ResolveError on every clone table: `n` framers, at most `B` `aux … as …` lines per framer, started from
+framers of the script (empty lineage) -/
+theorem C14_repaired_clone_worklist_terminates (moots : Nat → List Nat) (n B : Nat)
+    (hb : ∀ k j, j ∈ moots k → j < n) (hB : ∀ k, (moots k).length ≤ B) (start : List Nat) :
+    ∃ fuel r, runChecked moots fuel (start.map (fun k => (k, []))) = some r := by
+  obtain ⟨r, hr⟩ := runChecked_total n B hb hB _ (start.map (fun k => (k, [])))
+    (by intro p hp; obtain ⟨k, _, rfl⟩ := List.mem_map.mp hp; exact ⟨List.nodup_nil, by simp⟩) (Nat.le_refl _)
+  exact ⟨_, r, hr⟩
+
+/-- … and where it does not raise it presolves exactly the framers the loop as found presolves -/
+theorem C14_repaired_clone_worklist_conservative (moots : Nat → List Nat) (fuel : Nat) (start : List Nat) (c : Nat)
+    (h : runChecked moots fuel (start.map (fun k => (k, []))) = some (some c)) : run moots fuel start = some c := by
+  have := runChecked_conservative fuel _ c h
+  simpa [List.map_map, Function.comp_def] using this
+
+/-- the D5 scripts are now rejected; an acyclic table is presolved as before -/
+example : runChecked (mootsOf [[1], [1]]) 10 [(0, [])] = some none ∧
+    runChecked (mootsOf [[1], [2], [1]]) 10 [(0, [])] = some none ∧
+    runChecked (mootsOf [[1, 2], [2], []]) 10 [(0, [])] = some (some 4) := by decide
 
 /-! ## (b) the error-message table of the working tree -/
 
